@@ -34,16 +34,19 @@ def run_seed(sid, tests=False, tier="quick", jobs=8):
         raise SystemExit("worktree: " + r.stderr)
     out = dict(property=pid, seed=sid)
     try:
+        # the demonstration is copied into the root of the tree it runs against (several demos put their own directory first on sys.path)
+        shutil.copy(os.path.join(d, demo), os.path.join(wt, demo))
+        env1 = dict(os.environ, PYTHONPATH=wt + ":" + os.path.join(ROOT, "stubs"), PYTHONDONTWRITEBYTECODE="1", SEED_REPO=wt)
+        a = sh([PY, os.path.join(wt, demo)], env=env1, cwd=wt, timeout=900)
         r = sh(["git", "-C", wt, "apply", os.path.join(d, "patch.diff")])
         out["patch_applies"] = r.returncode == 0
         if r.returncode:
             out["error"] = r.stderr[-400:]
             return out
-        env0 = dict(os.environ, PYTHONPATH="/repo:" + os.path.join(ROOT, "stubs"), PYTHONDONTWRITEBYTECODE="1")
-        env1 = dict(os.environ, PYTHONPATH=wt + ":" + os.path.join(ROOT, "stubs"), PYTHONDONTWRITEBYTECODE="1", SEED_REPO=wt)
-        a = sh([PY, os.path.join(d, demo)], env=dict(env0, SEED_REPO="/repo"), cwd="/repo", timeout=900)
-        b = sh([PY, os.path.join(d, demo)], env=env1, cwd=wt, timeout=900)
+        b = sh([PY, os.path.join(wt, demo)], env=env1, cwd=wt, timeout=900)
+        os.remove(os.path.join(wt, demo))
         out["demo_unpatched_exit"] = a.returncode
+        out["demo_unpatched_tail"] = (a.stdout + a.stderr)[-300:] if a.returncode else ""
         out["demo_patched_exit"] = b.returncode
         out["demo_patched_tail"] = (b.stdout + b.stderr)[-300:]
         if tests:
